@@ -36,6 +36,9 @@ CLAIMED = {
  "C15": ("exploration", "differential monitor against a strict reference RESP parser/encoder",
    "Generated values and pipelines, every 1-cut split of short streams plus random k-cut splits, through all eight decoder entry points (incl. RespCodec under FramedRead and the paired multi codec) and seven encoder entry points; negative inputs judged by the reference parser.",
    "section 2, C15"),
+ "C17": ("exploration", "round-trip monitor over captured coordinator traffic + structure-aware mutation of wire encodings",
+   "Every distinct broker per-proxy view is pushed through the coordinator's real sender and the proxy's real parsers; generated values round-trip through both encodings; all truncations/deletions/corruptions of role-annotated argument vectors are classified (rejected / accepted-equal / accepted-different by class signature).",
+   "section 2, C17"),
  "C18": ("exploration", "history monitor with injected report ages",
    "Report-heavy histories with report ages injected through GET/PUT metadata; soundness oracle on every listing with clock-interval reasoning (no wall-clock verdicts).",
    "section 2, C18"),
